@@ -12,7 +12,7 @@ if os.path.exists(hp):
     hooks_commits = [l.split()[0] for l in open(hp) if l.strip()]
 checks = []
 for pid in ids:
-    if pid not in PROPS:
+    if pid not in PROPS or not PROPS[pid].get('claimed'):
         continue
     c = PROPS[pid]
     checks.append({
@@ -26,7 +26,7 @@ for pid in ids:
         "level_note": c["level_note"],
         "technique": c.get("technique", "machine-checked proof in Coq 8.16.1 over a hand-written Gallina model + differential correspondence check of the model against the Go implementation (vm_compute)"),
     })
-na = [{"property_id": pid, "reason": "not claimed yet: model/theorems for this property are not built at this commit (work in progress, see DESIGN.md §10 staging); the technique applies"} for pid in ids if pid not in PROPS]
+na = [{"property_id": pid, "reason": "not claimed yet: model/theorems for this property are not built at this commit (work in progress, see DESIGN.md §10 staging); the technique applies"} for pid in ids if pid not in PROPS or not PROPS[pid].get('claimed')]
 m = {
     "version": 1,
     "setup_cmd": "bin/check --setup",
@@ -44,4 +44,14 @@ m = {
     "notes": "See DESIGN.md. Every check: hygiene grep, full .vo make, Print Assumptions of the property theorems, harness rebuilt from /repo working tree, cases evaluated in Coq against model (correspondence) and specification (oracle).",
 }
 json.dump(m, open(os.path.join(VERIF, "MANIFEST.json"), "w"), indent=1)
+# merge known-finding fragments (committed; never written by a check)
+kd = os.path.join(VERIF, "known_findings.d")
+findings, fixed = [], []
+if os.path.isdir(kd):
+    for fn in sorted(os.listdir(kd)):
+        if fn.endswith(".json"):
+            j = json.load(open(os.path.join(kd, fn)))
+            findings += j.get("findings", [])
+            fixed += j.get("fixed", [])
+json.dump({"findings": findings, "fixed": fixed}, open(os.path.join(VERIF, "known_findings.json"), "w"), indent=1)
 print("claimed:", len(checks), "not claimed:", len(na))
